@@ -96,6 +96,8 @@ impl<T: Crdt> Machine<T> {
                     Some(op) => {
                         // freshness oracle: a generated dot must not be carried by any earlier op
                         let fresh = match T::op_dot(&op) {
+                            // a replica that has "forgotten" (reset_remove) no longer knows its own dots
+                            Some(_) if self.forgot[r] => " fresh=na",
                             Some(d) => {
                                 if self.ops.iter().any(|(n, o)| n != name && T::op_dot(o).as_deref() == Some(d.as_str())) {
                                     " fresh=FAIL"
